@@ -6,7 +6,7 @@ from . import gen_common as G
 from .gen_c20 import _interleave, _place_faults
 
 GROUPS = ["cycle_mem", "cycle_file", "mixed_cycle", "inspect", "stale_load", "declarative", "declarative", "overwrite"]
-SEAM_OPS = {"sc.foreign_ctx", "sc.dump", "sc.load"}
+SEAM_OPS = set()
 
 SRC_KINDS = ["voltage_source", "current_source", "ac_voltage_source", "ac_current_source", "rect_voltage_source",
              "rect_current_source", "complex_voltage_source", "complex_current_source"]
@@ -223,8 +223,7 @@ def gen_declarative(r):
         elif kind == "node":
             e.update(name=nm)
         elif kind == "ground":
-            if r.random() < 0.5:
-                e.update(name=r.choice(["GND", "0"]))
+            e.update(name=r.choice(["GND", "0", "gnd"]))      # always named: what an anonymous ground is called is not C15's business
         elif kind == "voltage_source":
             e.update(name=nm, V=r.choice(G.V_VALUES))
         elif kind == "current_source":
@@ -358,9 +357,6 @@ def _place_faults_c15(r, steps, cfg):
         if not free:
             return
         s = r.choice(free)
-        if s["op"] in ("sc.dump", "sc.load") and r.random() < 0.25:
-            s["fault"] = {"kind": "seam-raise", "at": 0, "exc": r.choice(["interrupt", "memory", "callback"])}
-            continue
         from .gen_c20 import interrupt_k
         s["fault"] = {"kind": "interrupt", "k": interrupt_k(r, s) if r.random() < 0.7 else int(round(2 ** r.uniform(0, 13))),
                       "exc": r.choice(["interrupt", "interrupt", "memory"])}
